@@ -13,12 +13,20 @@ CONFIG_FIELDS = ('automations', 'deck', 'hand_types', 'streets', 'betting_struct
 _havoc_ctr = [0]
 
 
-def havoc_state(I, ctx, ref, shape, keep=CONFIG_FIELDS):
-    """replace every non-configuration field of the State at `ref` by fresh symbolic content"""
+def havoc_state(I, ctx, ref, shape, keep=CONFIG_FIELDS, logged=0):
+    """replace every non-configuration field of the State at `ref` by fresh symbolic content.  The operation log is append-only (C15):
+    the new log is at least as long as the old one, longer by `logged` when the callee was handed that many records to append."""
+    from . import models
     _havoc_ctr[0] += 1
     new_ref, wf = fresh_state(I, ctx, shape, prefix=f'h{_havoc_ctr[0]}.')
     old = ctx.get(ref)
     new = ctx.get(new_ref)
+    try:
+        old_len = models.m_len(I, ctx, [old.fields['operations']], {}, None)
+        new_len = models.m_len(I, ctx, [new.fields['operations']], {}, None)
+        I.axiom(znum(new_len) >= znum(old_len) + logged)
+    except Exception:   # noqa  (a state without a log: nothing to say)
+        pass
     fields = dict(new.fields)
     for k in keep:
         fields[k] = old.fields[k]
@@ -30,7 +38,7 @@ def havoc_state(I, ctx, ref, shape, keep=CONFIG_FIELDS):
 def havoc_cut(shape, keep=CONFIG_FIELDS):
     """contract `ensures true, modifies every non-configuration field, raises nothing`"""
     def cut(I, ctx, fn, args, kwargs, node):
-        havoc_state(I, ctx, args[0], shape, keep)
+        havoc_state(I, ctx, args[0], shape, keep, logged=1 if (len(args) > 1 and args[1] is not None and not isinstance(args[1], Choice)) else 0)
         return None
     cut._havoc = True
     return cut
